@@ -96,6 +96,8 @@ FAMILIES["C05"] = dict(
        dict(profile="blocks", n={"quick": 1500, "thorough": 30000}),
        dict(profile="calls", n={"quick": 1500, "thorough": 30000})],
     hist=dict(n={"quick": 800, "thorough": 16000}),
+    files=["spec/cases/C05_history.ndjson"],
+    order_check={"quick": 5000, "thorough": 40000},
     level_text=("AstReadOnly and Repeatable are an action property and an invariant of the system specification JApi; TLC proves them for every history of up to 4 API calls over 2 expressions and a program pool with a chain, "
                 "a transform and registry lookups, and shows that the named deviations (the chain operator rewriting the parsed call, a transform writing through, a registry alias) violate them. The specification is bound to the code by "
                 "trace validation of seeded API histories (TraceApi: Compile/Register/Eval/SetDoc interleaved over 3 expressions x 3 documents, incl. other expressions calling the same built-ins in between) and by a second and third "
